@@ -13,14 +13,7 @@ PID = "C14"
 ORDER = ["data", "inode", "dir", "frag", "export", "id", "xattr"]
 
 
-def preload_so():
-    out = os.path.join(build.CACHE, "h")
-    os.makedirs(out, exist_ok=True)
-    so = out + "/preload.so"
-    src = VERIF + "/harness/preload.c"
-    if not os.path.exists(so) or os.path.getmtime(so) < os.path.getmtime(src):
-        subprocess.check_call(["gcc", "-O1", "-g", "-w", "-shared", "-fPIC", src, "-o", so, "-ldl"])
-    return so
+preload_so = vlib.preload_so
 
 
 def regions_of(img):
